@@ -26,6 +26,8 @@ func sceneFor(name string) SceneOpts {
 	case "chain":
 		o.Lifetime = 3
 		o.Expiry = 3600
+		o.BurnEpoch = "five_minutes"
+		o.EdenPerYear = "10000000000000"
 	case "rewards":
 		o.EdenPerYear = "10000000000000"
 	}
@@ -74,6 +76,13 @@ func prepScene(d *Driver, name string) {
 			Step{"a": "createPool", "kind": "bal", "fee": "0.01", "d1": "uelys", "d2": "uusdc", "a1": "300000000000", "a2": "900000000000", "w1": float64(1), "w2": float64(2)},
 			Step{"a": "block"})
 	case "positions", "orders", "chain":
+		if name == "chain" {
+			// a token the oracle and the asset profile have never heard of (fees may be paid in it)
+			ctx := c.AdminCtx()
+			for _, n := range []string{"u1", "u2", "u3"} {
+				c.mint(ctx, c.Addr[n], sdk.NewCoins(sdk.NewInt64Coin("ibc/UNKNOWN", 1_000_000_000_000)))
+			}
+		}
 		// pool 1: oracle pool uatom/uusdc with leverage + perpetual enabled; pool 2: balancer uelys/uusdc
 		mk(Step{"a": "createPool", "kind": "oracle", "fee": "0.001", "d1": "uatom", "d2": "uusdc", "a1": "200000000000", "a2": "1000000000000"},
 			Step{"a": "block"},
